@@ -1,4 +1,5 @@
 import PV.Proofs.EqHash
+import PV.Proofs.EqHashOwn
 import PV.Proofs.EqHashStock
 import PV.Proofs.Pickle
 import PV.Properties.C17
@@ -16,6 +17,13 @@ import PV.Generated.Classes
   unpickle / setattr / delattr over a pool of objects with per-instance `_hash_value` slots
   (extending lean/PV/Model/Pickle.lean).  Objects are `PV.Pickle.Obj`; `Obj.pyEq` is the property's
   notion of equality: same node class and pairwise `==` fields.
+
+  lean/PV/Model/EqHashOwn.lean: the HAND-WRITTEN `__eq__` / `__ne__` / `__hash__` of `Polynomial`,
+  `Rational` and their subclasses (and the constructor of `Rational`), run from the records
+  `PV.Generated.c01OwnEqs` that extract/classes.py reads from their source, inside Python's `==` as
+  CPython dispatches it (`ownEq`, `hashX`; sections 6 and 7 below).
+  `ClassTable.inMode` / `step1D` / `run1D`: the same histories in an interpreter with
+  `__debug__ = false` (`python -O`; the decorator says `frozen=__debug__`; section 8).
 
   Hypotheses and why:
     `tbl.Ok`         the decidable side condition on the class table (every generated method of
@@ -389,5 +397,414 @@ theorem unfrozen_rebind_stale_cex :
     (match r.1.base.pool with
      | [a, b] => a.pyEq b
      | _ => false) = true := by decide
+
+/-! ### 6. the hand-written `__eq__` / `__hash__` of `Polynomial` and `Rational` -/
+
+/-- class table and hand-written-method records of the CURRENT tree -/
+def curX (P : HashParams) : OwnCtx := ⟨Generated.classes, Generated.c01OwnEqs, P⟩
+
+/-- **own_current.**  In the working tree every class whose `__eq__` is hand-written (`Polynomial`,
+`Rational`, their subclasses) takes `__eq__`, `__hash__`, `__getinitargs__` from one defining
+class; the source of those methods has one of the two known shapes; `__hash__` hashes
+`type(self).__name__` and exactly the attributes `__eq__` compares; `__eq__` tests `isinstance`;
+`__ne__` is `not self.__eq__(other)`; the constructors have the expected text. -/
+theorem own_current : ClassTable.OwnOk Generated.classes Generated.c01OwnEqs = true := by decide
+
+/-- which record each class runs (non-vacuity of `own_current`), and ordinary classes run none -/
+theorem own_current_lookup (P : HashParams) :
+    ((curX P).own? "Rational").map (fun o => (o.shape, o.eqAttrs)) = some (.rational, ["Numerator", "Denominator"]) ∧
+    ((curX P).own? "SubRat").map (·.name) = some "Rational" ∧
+    ((curX P).own? "Polynomial").map (fun o => (o.shape, o.eqAttrs)) = some (.polynomial, ["Base", "Data"]) ∧
+    ((curX P).own? "SubPoly").map (·.name) = some "Polynomial" ∧
+    ((curX P).own? "Variable").isNone = true ∧ ((curX P).own? "LBase").isNone = true := by
+  have h : ∀ c, (curX P).own? c = (curX (C17.exP 0)).own? c := fun _ => rfl
+  simp only [h]
+  decide
+
+/-- **own_conservative.**  On objects with no instance of a hand-written class inside, Python's
+`==` as modelled with all of its dispatch (a proper subclass on the right is asked first, builtin
+left operands hand over to the reflected method, tuples compare elementwise then by length, `and`
+short-circuits) and `hash` ARE the table-driven generated methods: every theorem of sections 1–5
+applies to them unchanged. -/
+theorem own_conservative (X : OwnCtx) (ok : X.tbl.Ok = true) (a b : Obj)
+    (fa : ownFree X a = true) (fb : ownFree X b = true) :
+    ownEq X a b = .ok (eqGen X.tbl X.P a b) ∧ ownNe X a b = .ok (!eqGen X.tbl X.P a b) ∧
+    hashX X a = hashGen X.tbl X.P a := by
+  have h := ownEq_free X ok a b fa fb
+  exact ⟨h, by simp only [ownNe, h, Res.not], hashX_free X a fa⟩
+
+/-- **own_eq_fuel_enough.**  `ownEq a b` runs the fuel-indexed recursion `eqF` with
+`depth a + depth b + 1` levels; for EVERY pair of objects (hand-written classes nested to any depth,
+reflected calls, coercions) any larger amount of fuel gives the same answer: an answer
+`Res.unmodelled` never means "out of fuel", only one of the stated abstentions. -/
+theorem own_eq_fuel_enough (X : OwnCtx) (a b : Obj) (fuel : Nat)
+    (h : objDepth a + objDepth b < fuel) : eqF X fuel a b = ownEq X a b :=
+  ownEq_eq_eqF X a b fuel h
+
+example : ownFree (curX (C17.exP 0)) (lookup vx "a") = true ∧
+    ownEq (curX (C17.exP 0)) (lookup vx "a") (lookup vx "a") = .ok true ∧
+    ownEq (curX (C17.exP 0)) (lookup vx "a") (lookup vy "a") = .ok false := by decide
+
+/-- **own_eq_inst_iff.**  Two instances of the class that DEFINES a hand-written `__eq__` (or of
+subclasses: the test is `isinstance`), attribute values ordinary trees: `==` answers exactly the
+pairwise `==` of the attributes the method compares (`Base`, `Data` for `Polynomial`; `Numerator`,
+`Denominator` for `Rational` — as stored: `Rational(2, 4)` and `Rational(1, 2)` differ) — whatever
+the two classes are, whatever the other init args (`Unit`, `VarLess`) hold, and whichever of the
+two operands CPython asks first.  So among instances of ONE class the relation is structural on
+the compared attributes; it is not "same class" (`own_subclass_hash_cex`) and it ignores init args
+(`poly_unit_ignored_cex`). -/
+theorem own_eq_inst_iff (X : OwnCtx) (ok : X.tbl.Ok = true) (hP : X.P.Ok) {o : C01OwnEqInfo}
+    {c c' : String} (hc : X.own? c = some o) (hc' : X.own? c' = some o)
+    (hin : o.eqIsinstance = true) (hi : X.isInstance c o.name = true)
+    (hi' : X.isInstance c' o.name = true) (k k' : Kind) (fs fs' : List Obj) (h h' : Option Nat)
+    (pf : ∀ x ∈ fs, Plain X x) (pf' : ∀ x ∈ fs', Plain X x) :
+    ownEq X (.inst c k fs h) (.inst c' k' fs' h') = .ok (pairsEq (eqVals o fs) (eqVals o fs')) ∧
+    ownNe X (.inst c k fs h) (.inst c' k' fs' h') = .ok (!pairsEq (eqVals o fs) (eqVals o fs')) := by
+  have h1 := ownEq_inst_spec X ok hP hc hc' hin hi hi' k k' fs fs' h h' pf pf'
+  exact ⟨h1, by simp only [ownNe, h1, Res.not]⟩
+
+/-- **own_eq_inst_equiv.**  On instances of the defining class and its subclasses (same number of
+init args, ordinary attribute values) the hand-written `==` is reflexive, symmetric and
+transitive. -/
+theorem own_eq_inst_equiv (X : OwnCtx) (ok : X.tbl.Ok = true) (hP : X.P.Ok) {o : C01OwnEqInfo}
+    {c₁ c₂ c₃ : String} (h₁ : X.own? c₁ = some o) (h₂ : X.own? c₂ = some o) (h₃ : X.own? c₃ = some o)
+    (hin : o.eqIsinstance = true) (i₁ : X.isInstance c₁ o.name = true)
+    (i₂ : X.isInstance c₂ o.name = true) (i₃ : X.isInstance c₃ o.name = true)
+    (k₁ k₂ k₃ : Kind) (f₁ f₂ f₃ : List Obj) (s₁ s₂ s₃ : Option Nat)
+    (p₁ : ∀ x ∈ f₁, Plain X x) (p₂ : ∀ x ∈ f₂, Plain X x) (p₃ : ∀ x ∈ f₃, Plain X x)
+    (l₁₂ : f₁.length = f₂.length) (l₂₃ : f₂.length = f₃.length) :
+    ownEq X (.inst c₁ k₁ f₁ s₁) (.inst c₁ k₁ f₁ s₁) = .ok true ∧
+    (ownEq X (.inst c₁ k₁ f₁ s₁) (.inst c₂ k₂ f₂ s₂) = .ok true →
+      ownEq X (.inst c₂ k₂ f₂ s₂) (.inst c₁ k₁ f₁ s₁) = .ok true) ∧
+    (ownEq X (.inst c₁ k₁ f₁ s₁) (.inst c₂ k₂ f₂ s₂) = .ok true →
+      ownEq X (.inst c₂ k₂ f₂ s₂) (.inst c₃ k₃ f₃ s₃) = .ok true →
+      ownEq X (.inst c₁ k₁ f₁ s₁) (.inst c₃ k₃ f₃ s₃) = .ok true) := by
+  have w₁ : ∀ x ∈ eqVals o f₁, x.wf = true := fun x hx => (p₁ x (pick_subset hx)).wf
+  have w₂ : ∀ x ∈ eqVals o f₂, x.wf = true := fun x hx => (p₂ x (pick_subset hx)).wf
+  have w₃ : ∀ x ∈ eqVals o f₃, x.wf = true := fun x hx => (p₃ x (pick_subset hx)).wf
+  rw [ownEq_inst_spec X ok hP h₁ h₁ hin i₁ i₁ k₁ k₁ f₁ f₁ s₁ s₁ p₁ p₁,
+    ownEq_inst_spec X ok hP h₁ h₂ hin i₁ i₂ k₁ k₂ f₁ f₂ s₁ s₂ p₁ p₂,
+    ownEq_inst_spec X ok hP h₂ h₁ hin i₂ i₁ k₂ k₁ f₂ f₁ s₂ s₁ p₂ p₁,
+    ownEq_inst_spec X ok hP h₂ h₃ hin i₂ i₃ k₂ k₃ f₂ f₃ s₂ s₃ p₂ p₃,
+    ownEq_inst_spec X ok hP h₁ h₃ hin i₁ i₃ k₁ k₃ f₁ f₃ s₁ s₃ p₁ p₃]
+  refine ⟨by rw [pairsEq_refl _ w₁], fun h => ?_, fun h h' => ?_⟩
+  · rw [pairsEq_symm _ _ w₂ w₁]; exact h
+  · simp only [Res.ok.injEq] at h h' ⊢
+    exact pairsEq_trans _ _ _ (pick_length _ _ _ l₁₂ _) (pick_length _ _ _ l₂₃ _) w₁ w₂ w₃ h h'
+
+/-- **own_eq_hash_partial.**  Equal ⇒ equal hash for two instances OF THE SAME CLASS with a
+hand-written `__eq__` whose `__hash__` has no unit test (polynomial shape).  The hypothesis "same
+class" is needed: the hash contains `type(self).__name__` while `__eq__` accepts subclass
+instances (`own_subclass_hash_cex`). -/
+theorem own_eq_hash_partial (X : OwnCtx) (ok : X.tbl.Ok = true) (hP : X.P.Ok) {o : C01OwnEqInfo}
+    {c : String} (hc : X.own? c = some o) (hok : o.ok = true) (hs : o.shape = .polynomial)
+    (hi : X.isInstance c o.name = true) (k k' : Kind) (fs fs' : List Obj) (h h' : Option Nat)
+    (hl : fs.length = fs'.length) (pf : ∀ x ∈ fs, Plain X x) (pf' : ∀ x ∈ fs', Plain X x)
+    (he : ownEq X (.inst c k fs h) (.inst c k' fs' h') = .ok true) :
+    hashX X (.inst c k fs h) = hashX X (.inst c k' fs' h') := by
+  simp only [C01OwnEqInfo.ok, hs, Bool.and_eq_true, decide_eq_true_eq, beq_iff_eq, and_assoc,
+    Bool.not_eq_true', Option.isNone_iff_eq_none] at hok
+  obtain ⟨_, hin, _, _, _, hh, _, _, hu, _⟩ := hok
+  rw [ownEq_inst_spec X ok hP hc hc hin hi hi k k' fs fs' h h' pf pf'] at he
+  exact ownHash_eq_of_pairsEq X ok hP hc hu hh k k' fs fs' h h' hl pf pf' (by simpa using he)
+
+/-- `Polynomial(x, ((1, 1),))` under the current table -/
+def polyX (cls : String) (unit : Int) : Obj :=
+  .inst cls .legacy [vx, .tuple [.tuple [.atom (.int 1), .atom (.int 1)]], .atom (.int unit),
+    strAtom "<LexicalMonomialOrder>"] none
+
+def ratOf (cls : String) (n d : Obj) : Obj := .inst cls .legacy [n, d] none
+def one : Obj := .atom (.int 1)
+def two : Obj := .atom (.int 2)
+def sumOf (a b : Obj) : Obj := .inst "Sum" .dataclass [.tuple [a, b]] none
+
+/-- **own_subclass_hash_cex** (known findings `eq-not-structural:Polynomial.__eq__`,
+`equal-but-hash-differs:Rational.__eq__:subclass`).  `SubPoly(x, ((1, 1),)) == Polynomial(x, ((1, 1),))` and
+`SubRat(x, 2) == Rational(x, 2)` (in both orders) although the classes differ, and their hashes
+differ (the class name is hashed): neither finds the other as a dict key. -/
+theorem own_subclass_hash_cex :
+    let X := curX (C17.exP 0)
+    ownEq X (polyX "SubPoly" 1) (polyX "Polynomial" 1) = .ok true ∧
+    ownEq X (polyX "Polynomial" 1) (polyX "SubPoly" 1) = .ok true ∧
+    hashX X (polyX "SubPoly" 1) ≠ hashX X (polyX "Polynomial" 1) ∧
+    ownFinds X (polyX "Polynomial" 1) (polyX "SubPoly" 1) = .ok false ∧
+    ownEq X (ratOf "SubRat" vx two) (ratOf "Rational" vx two) = .ok true ∧
+    ownEq X (ratOf "Rational" vx two) (ratOf "SubRat" vx two) = .ok true ∧
+    hashX X (ratOf "SubRat" vx two) ≠ hashX X (ratOf "Rational" vx two) ∧
+    ownFinds X (ratOf "Rational" vx two) (ratOf "SubRat" vx two) = .ok false := by decide
+
+/-- **poly_unit_ignored_cex** (known finding `eq-not-structural:Polynomial.__eq__`).  The init arg
+`Unit` takes no part: `Polynomial(x, ((1, 1),), unit=1) == Polynomial(x, ((1, 1),), unit=2)`, same
+hash, although the two objects do not have pairwise-equal fields. -/
+theorem poly_unit_ignored_cex :
+    let X := curX (C17.exP 0)
+    (polyX "Polynomial" 1).pyEq (polyX "Polynomial" 2) = false ∧
+    ownEq X (polyX "Polynomial" 1) (polyX "Polynomial" 2) = .ok true ∧
+    hashX X (polyX "Polynomial" 1) = hashX X (polyX "Polynomial" 2) := by decide
+
+/-- **poly_eq_other.**  A `Polynomial` is never `==` to anything that is not a `Polynomial`:
+not to a number, a tuple, a string, an ordinary node — in particular
+`Polynomial(x, ((0, 1),)) == 1` is False (and so is `1 == Polynomial(x, ((0, 1),))`, which CPython
+hands to the same method), so the different hashes of the two are no defect. -/
+theorem poly_eq_other (X : OwnCtx) {o : C01OwnEqInfo} {c : String} (hc : X.own? c = some o)
+    (hs : o.shape = .polynomial) (hok : o.ok = true) (k : Kind) (fs : List Obj) (h : Option Nat) :
+    (∀ d : Const, ownEq X (.inst c k fs h) (.atom d) = .ok false ∧
+                  ownEq X (.atom d) (.inst c k fs h) = .ok false) ∧
+    (∀ xs, ownEq X (.inst c k fs h) (.tuple xs) = .ok false) ∧
+    (∀ c' k' fs' h', X.isInstance c' o.name = false → X.properSub c' c = false →
+      ownEq X (.inst c k fs h) (.inst c' k' fs' h') = .ok false) := by
+  simp only [C01OwnEqInfo.ok, hs, Bool.and_eq_true, decide_eq_true_eq, beq_iff_eq, and_assoc,
+    Bool.not_eq_true', Option.isNone_iff_eq_none] at hok
+  obtain ⟨_, hin, _, _, _, _, _, hco, _, _⟩ := hok
+  refine ⟨fun d => ⟨?_, ?_⟩, fun xs => ?_, fun c' k' fs' h' hni hps => ?_⟩
+  · simp only [ownEq, objDepth]; rw [eqF_inst_atom]; simp [methEq, hc, hco]
+  · simp only [ownEq, objDepth]; rw [eqF_atom_inst]; simp [methEq, hc, hco]
+  · simp only [ownEq, objDepth, eqF]; simp [methEq, hc, hco]
+  · simp only [ownEq, objDepth]; rw [eqF_inst_inst]; simp [methEq, hc, hco, hin, hni, hps]
+
+example : ownEq (curX (C17.exP 0)) (.inst "Polynomial" .legacy
+      [vx, .tuple [.tuple [.atom (.int 0), one]], one, strAtom "<LexicalMonomialOrder>"] none) one
+    = .ok false := by decide
+
+/-- **rational_eq_node.**  `Rational(n, d) == e` for an ordinary node `e`: the method builds
+`Rational(e)` = (`e`, `1.0`) and compares: the answer is `n == e and d == 1.0` — a Rational with
+denominator one EQUALS its bare numerator although the classes differ.  The other way round,
+`e == Rational(n, d)`, the node's own generated `__eq__` answers False.  When the answer is True
+the two hashes agree (`__hash__` returns `hash(self.Numerator)` when the denominator is one). -/
+theorem rational_eq_node (X : OwnCtx) (ok : X.tbl.Ok = true) (hP : X.P.Ok) {o : C01OwnEqInfo}
+    {c : String} (hc : X.own? c = some o) (hs : o.shape = .rational) (hok : o.ok = true)
+    (k : Kind) (n : Obj) (dc : Const) (h : Option Nat)
+    (c' : String) (k' : Kind) (fs' : List Obj) (h' : Option Nat)
+    (he : X.own? c' = none) (hni : X.isInstance c' o.name = false)
+    (hps : X.properSub c' c = false) (hps' : X.properSub c c' = false)
+    (pn : Plain X n) (pd : dc.wf = true) (pe : Plain X (.inst c' k' fs' h')) :
+    ownEq X (.inst c k [n, .atom dc] h) (.inst c' k' fs' h')
+      = .ok (n.pyEq (.inst c' k' fs' h') && (Obj.atom dc).pyEq floatOne) ∧
+    ownEq X (.inst c' k' fs' h') (.inst c k [n, .atom dc] h) = .ok false ∧
+    (ownEq X (.inst c k [n, .atom dc] h) (.inst c' k' fs' h') = .ok true →
+      hashX X (.inst c k [n, .atom dc] h) = hashX X (.inst c' k' fs' h')) := by
+  obtain ⟨an, ad, rs⟩ := ratShape_of_ok hok hs
+  have h1 := ratEq_plain X ok hP hc rs k n (.atom dc) h c' k' fs' h' he hni hps pn
+    (plain_atom X dc pd) pe
+  refine ⟨h1, plainEq_rat X ok hc k _ h c' k' fs' h' he hps', fun ht => ?_⟩
+  rw [h1] at ht
+  exact ratEq_other_hash X ok hP hc rs k n dc h _ pn pe (by simpa using ht)
+
+/-- **rational_symm_cex** (known finding `eq-not-structural:Rational.__eq__`).
+`Rational(x, 1) == x` is True, `x == Rational(x, 1)` is False; the defect reaches ordinary nodes:
+`Sum((Rational(x, 1), 1)) == Sum((x, 1))` is True (equal hashes: the hash fast path does not
+separate them), the reverse is False; as dict keys: `x` finds a stored `Rational(x, 1)`,
+`Rational(x, 1)` does not find a stored `x`. -/
+theorem rational_symm_cex :
+    let X := curX (C17.exP 0)
+    let r := ratOf "Rational" vx one
+    ownEq X r vx = .ok true ∧ ownEq X vx r = .ok false ∧ hashX X r = hashX X vx ∧
+    ownEq X (sumOf r one) (sumOf vx one) = .ok true ∧ ownEq X (sumOf vx one) (sumOf r one) = .ok false ∧
+    hashX X (sumOf r one) = hashX X (sumOf vx one) ∧
+    ownFinds X r vx = .ok true ∧ ownFinds X vx r = .ok false := by decide
+
+/-- **rational_trans_cex.**  With a subclass in play `==` is not transitive:
+`Rational(Rational(x, 1), 1) == Rational(x, 1)`, `Rational(x, 1) == SubRat(x, 1)`, but
+`Rational(Rational(x, 1), 1) == SubRat(x, 1)` is False — CPython asks the subclass instance on the
+right first, and `x == Rational(x, 1)` is False.  (Without subclasses no non-transitive triple was
+found on the real code.) -/
+theorem rational_trans_cex :
+    let X := curX (C17.exP 0)
+    let a := ratOf "Rational" (ratOf "Rational" vx one) one
+    let b := ratOf "Rational" vx one
+    let c := ratOf "SubRat" vx one
+    ownEq X a b = .ok true ∧ ownEq X b c = .ok true ∧ ownEq X a c = .ok false := by decide
+
+/-- **rational_eq_number.**  Against a number `k` (int within the exact float range, bool, float)
+`Rational(n, d) == k` and `k == Rational(n, d)` are the SAME call (`int.__eq__` answers
+`NotImplemented`), both answer `n == k and d == 1`: symmetric, and when True the hashes agree
+(`hash(Rational(2, 1)) == hash(2)`). -/
+theorem rational_eq_number (X : OwnCtx) (ok : X.tbl.Ok = true) (hP : X.P.Ok) {o : C01OwnEqInfo}
+    {c : String} (hc : X.own? c = some o) (hs : o.shape = .rational) (hok : o.ok = true)
+    (k : Kind) (n : Obj) (dc : Const) (h : Option Nat) (kc fl : Const)
+    (hn : constIsNumeric kc = true) (hf : constToFloat? kc = some fl) (hw : kc.wf = true)
+    (pn : Plain X n) (pd : dc.wf = true) :
+    ownEq X (.inst c k [n, .atom dc] h) (.atom kc)
+      = .ok (n.pyEq (.atom kc) && (Obj.atom dc).pyEq floatOne) ∧
+    ownEq X (.atom kc) (.inst c k [n, .atom dc] h) = ownEq X (.inst c k [n, .atom dc] h) (.atom kc) ∧
+    (ownEq X (.inst c k [n, .atom dc] h) (.atom kc) = .ok true →
+      hashX X (.inst c k [n, .atom dc] h) = hashX X (.atom kc)) := by
+  obtain ⟨an, ad, rs⟩ := ratShape_of_ok hok hs
+  obtain ⟨h1, h2⟩ := ratEq_num X ok hP hc rs k n (.atom dc) h kc fl hn hf hw pn (plain_atom X dc pd)
+  refine ⟨h1, by rw [h1, h2], fun ht => ?_⟩
+  rw [h1] at ht
+  exact ratEq_other_hash X ok hP hc rs k n dc h _ pn (plain_atom X kc hw) (by simpa using ht)
+
+example : let X := curX (C17.exP 0)
+    ownEq X (ratOf "Rational" two one) two = .ok true ∧ ownEq X two (ratOf "Rational" two one) = .ok true ∧
+    ownEq X (ratOf "Rational" two one) (.atom (.bool true)) = .ok false ∧
+    ownEq X (ratOf "Rational" two two) one = .ok false := by decide
+
+/-- **rational_eq_hash.**  Two `==` instances of the same Rational class (ordinary numerators,
+number denominators) hash equal — unnormalised fractions included: `==` and `hash` both look at
+the stored numerator and denominator only. -/
+theorem rational_eq_hash (X : OwnCtx) (ok : X.tbl.Ok = true) (hP : X.P.Ok) {o : C01OwnEqInfo}
+    {c : String} (hc : X.own? c = some o) (hs : o.shape = .rational) (hok : o.ok = true)
+    (hi : X.isInstance c o.name = true) (k k' : Kind) (n n' : Obj) (dc dc' : Const)
+    (h h' : Option Nat) (pn : Plain X n) (pn' : Plain X n') (pd : dc.wf = true) (pd' : dc'.wf = true)
+    (he : ownEq X (.inst c k [n, .atom dc] h) (.inst c k' [n', .atom dc'] h') = .ok true) :
+    hashX X (.inst c k [n, .atom dc] h) = hashX X (.inst c k' [n', .atom dc'] h') := by
+  obtain ⟨an, ad, rs⟩ := ratShape_of_ok hok hs
+  have pf : ∀ x ∈ [n, Obj.atom dc], Plain X x := by
+    intro x hx; simp only [List.mem_cons, List.not_mem_nil, or_false] at hx
+    rcases hx with rfl | rfl
+    · exact pn
+    · exact plain_atom X dc pd
+  have pf' : ∀ x ∈ [n', Obj.atom dc'], Plain X x := by
+    intro x hx; simp only [List.mem_cons, List.not_mem_nil, or_false] at hx
+    rcases hx with rfl | rfl
+    · exact pn'
+    · exact plain_atom X dc' pd'
+  rw [ownEq_inst_spec X ok hP hc hc rs.isinst hi hi k k' _ _ h h' pf pf', rs.eqVals, rs.eqVals] at he
+  exact ratEq_hash X ok hP hc rs k k' n n' dc dc' h h' pn pn'
+    (by simpa [pairsEq, Obj.pyEq] using he)
+
+/-- unnormalised fractions: `Rational(2, 4)` (stored as given) is not `==` to `Rational(1, 2)`;
+this IS "pairwise-equal fields" -/
+example : let X := curX (C17.exP 0)
+    ownEq X (ratOf "Rational" two (.atom (.int 4))) (ratOf "Rational" one two) = .ok false ∧
+    ownEq X (ratOf "Rational" two (.atom (.int 4))) (ratOf "Rational" (.atom (.flt "2.0" 2 1)) (.atom (.int 4)))
+      = .ok true := by decide
+
+/-- **rational_eq_nonnumber_raises.**  `Rational(n, d) == other` RAISES (`TypeError` out of
+`Rational(other)`: `other /= 1`) when `other` is a string, `None`, a tuple or a mapping — also with
+the Rational on the right (`"abc" == Rational(x, 2)` is handed to the same method). -/
+theorem rational_eq_nonnumber_raises (X : OwnCtx) {o : C01OwnEqInfo} {c : String}
+    (hc : X.own? c = some o) (hs : o.shape = .rational) (hok : o.ok = true)
+    (k : Kind) (fs : List Obj) (h : Option Nat) :
+    (∀ s, ownEq X (.inst c k fs h) (strAtom s) = .raises ∧ ownEq X (strAtom s) (.inst c k fs h) = .raises) ∧
+    ownEq X (.inst c k fs h) (.atom .none) = .raises ∧
+    (∀ xs, ownEq X (.inst c k fs h) (.tuple xs) = .raises) ∧
+    (∀ ks vs, ownEq X (.inst c k fs h) (.dict ks vs) = .raises) := by
+  obtain ⟨an, ad, rs⟩ := ratShape_of_ok hok hs
+  refine ⟨fun s => ⟨?_, ?_⟩, ?_, fun xs => ?_, fun ks vs => ?_⟩
+  · simp only [ownEq, objDepth, strAtom]; rw [eqF_inst_atom]
+    exact methEq_own_coerce_raises X _ hc rs.coerces k fs h _ (Or.inl ⟨_, rfl, rfl⟩)
+  · simp only [ownEq, objDepth, strAtom]; rw [eqF_atom_inst]
+    exact methEq_own_coerce_raises X _ hc rs.coerces k fs h _ (Or.inl ⟨_, rfl, rfl⟩)
+  · simp only [ownEq, objDepth]; rw [eqF_inst_atom]
+    exact methEq_own_coerce_raises X _ hc rs.coerces k fs h _ (Or.inl ⟨_, rfl, rfl⟩)
+  · simp only [ownEq, objDepth, eqF]
+    exact methEq_own_coerce_raises X _ hc rs.coerces k fs h _ (Or.inr (Or.inl ⟨_, rfl⟩))
+  · simp only [ownEq, objDepth, eqF]
+    exact methEq_own_coerce_raises X _ hc rs.coerces k fs h _ (Or.inr (Or.inr ⟨_, _, rfl⟩))
+
+example : ownEq (curX (C17.exP 0)) (ratOf "Rational" vx two) (strAtom "abc") = .raises := by decide
+
+/-! ### 7. the constructor of `Rational` -/
+
+/-- **rational_init_stores.**  `Rational(n, d)` for an `int` denominator: the unit of `d` is its
+sign; numerator and denominator are DIVIDED by it (true division: ints become floats) and stored —
+nothing is reduced, the stored denominator is the float `|d|`; a zero denominator raises
+`RuntimeError`, a float one `AttributeError`, an expression `NoTraitsError`. -/
+theorem rational_init_stores (X : OwnCtx) (n d : Int) (hd : d ≠ 0)
+    (hn : -twoPow53 ≤ n ∧ n ≤ twoPow53) (hdr : d.natAbs ≤ twoPow53.natAbs) :
+    ∃ r r', rationalInit X (.atom (.int n)) (.atom (.int d))
+      = .stored (.atom (.flt r (if d > 0 then n else -n) 1)) (.atom (.flt r' d.natAbs 1)) := by
+  simp only [rationalInit, hd, if_false, Nat.not_lt.mpr hdr, constIsNumeric, Bool.not_true,
+    Bool.false_eq_true]
+  by_cases hp : d > 0
+  · simp only [hp, if_true, constToFloat?, hn, and_self]
+    exact ⟨_, _, rfl⟩
+  · simp only [hp, if_false, constNegFloat?, hn, and_self, if_true]
+    by_cases h0 : n = 0
+    · subst h0; exact ⟨_, _, rfl⟩
+    · simp only [h0, if_false]; exact ⟨_, _, rfl⟩
+
+example : let X := curX (C17.exP 0)
+    (match rationalInit X two (.atom (.int 4)) with
+     | .stored n d => n.pyEq two && d.pyEq (.atom (.int 4))
+     | _ => false) = true ∧
+    (match rationalInit X vx (.atom (.int (-2))) with
+     | .stored n d => n.pyEq (.inst "Quotient" .dataclass [vx, .atom (.int (-1))] none) && d.pyEq two
+     | _ => false) = true ∧
+    (match rationalInit X vx (.atom (.int 0)) with | .err "RuntimeError" => true | _ => false) = true ∧
+    (match rationalInit X vx (.atom (.flt "2.0" 2 1)) with | .err "AttributeError" => true | _ => false) = true ∧
+    (match rationalInit X vx vy with | .err "NoTraitsError" => true | _ => false) = true := by decide
+
+/-! ### 8. interpreter modes: `frozen=__debug__` -/
+
+/-- **frozen_source_current.**  The `frozen=` keyword of the decorator of the working tree
+(`frozen=__debug__` today; read from its source) evaluates to true in the default interpreter
+mode. -/
+theorem frozen_source_current : Generated.c01FrozenSource.eval true = true := by decide
+
+/-- the keyword `__debug__` evaluates to false under `python -O`, `True` does not -/
+example : C01FrozenSource.debugFlag.eval false = false ∧ C01FrozenSource.always.eval false = true := by decide
+
+/-- **frozen_rejects_default.**  `frozen_rejects` with the interpreter mode as a parameter of the
+`setattr` / `delattr` model: in the DEFAULT mode (`__debug__ = true`) an attempt on a protected
+attribute answers `FrozenInstanceError` and changes nothing. -/
+theorem frozen_rejects_default (tbl : ClassTable) (P : HashParams) (w : World1) (i : Nat)
+    (c f : String) (k : Kind) (fs : List Obj) (h : Option Nat) (v : Obj)
+    (hi : w.base.pool[i]? = some (.inst c k fs h)) (hf : tbl.frozenFor c f = true) :
+    step1D .debugFlag true tbl P w (.setattr i f v) = (w, .frozen) ∧
+    step1D .debugFlag true tbl P w (.delattr i f) = (w, .frozen) := by
+  simp only [step1D, inMode_default]
+  exact frozen_rejects tbl P w i c f k fs h v hi hf
+
+/-- **optimized_never_rejects.**  Under `python -O` (`__debug__ = false`) NO `setattr` / `delattr`
+answers `FrozenInstanceError`, for any class table: a `setattr` on a field rebinds it and leaves
+the `_hash_value` slot as it is. -/
+theorem optimized_never_rejects (tbl : ClassTable) (P : HashParams) (w : World1) (i : Nat)
+    (c f : String) (k : Kind) (fs : List Obj) (h : Option Nat) (v : Obj)
+    (hi : w.base.pool[i]? = some (.inst c k fs h)) :
+    (step1D .debugFlag false tbl P w (.setattr i f v)).2 ≠ .frozen ∧
+    (step1D .debugFlag false tbl P w (.delattr i f)).2 ≠ .frozen ∧
+    (∀ idx, fieldIndex tbl c f = some idx →
+      step1D .debugFlag false tbl P w (.setattr i f v) =
+        ({ w with base := { w.base with pool := w.base.pool.set i (.inst c k (fs.set idx v) h) } },
+         .attrSet true (Obj.inst c k (fs.set idx v) h).bits)) := by
+  simp only [step1D, step1, hi, frozenFor_optimized, Bool.false_eq_true, if_false, fieldIndex_inMode]
+  refine ⟨?_, by simp, fun idx hidx => by simp only [hidx]⟩
+  cases fieldIndex tbl c f <;> simp
+
+/-- **optimized_rebind_stale_cex.**  What the frozen flag prevents, happening to a DECORATED class
+under `python -O`: `Lookup(x, "a")` is hashed, its field `name` is rebound to `"bb"` (no exception),
+and now it compares UNEQUAL to a freshly built `Lookup(x, "bb")` — same class, pairwise-equal
+fields — and is not found in a set holding it; in the default mode the same history stops at the
+`setattr` with `FrozenInstanceError` and the object stays equal to `Lookup(x, "a")`. -/
+theorem optimized_rebind_stale_cex :
+    let w : World1 := ⟨⟨[lookup vx "a", lookup vx "bb", lookup vx "a"], []⟩, []⟩
+    let ops : List Op1 := [.base (.hash 0), .setattr 0 "name" (strAtom "bb"), .base (.eq 0 1),
+                           .base (.member 0 1), .base (.eq 0 2)]
+    let r := run1D .debugFlag false exTbl (C17.exP 0) w ops
+    let r' := run1D .debugFlag true exTbl (C17.exP 0) w ops
+    r.2.map view = [(0, true, [true, true], []), (11, true, [true, true], []),
+                    (1, false, [true, true], [true, true]), (2, false, [true, true], [true, true]),
+                    (1, false, [true, true], [true, true])] ∧
+    (match r.1.base.pool with
+     | a :: b :: _ => a.pyEq b
+     | _ => false) = true ∧
+    r'.2.map view = [(0, true, [true, true], []), (10, true, [], []),
+                     (1, false, [true, true], [true, true]), (2, false, [true, true], [true, true]),
+                     (1, true, [true, true], [true, true])] := by decide
+
+/-- **optimized_untouched_same.**  A history WITHOUT `setattr` / `delattr` attempts runs identically
+in both interpreter modes (no other operation looks at the frozen flag): hashes, `==`, `!=`,
+dict and set answers and the slots of untouched objects under `python -O` are those of the default
+mode. -/
+theorem optimized_untouched_same (src : C01FrozenSource) (tbl : ClassTable) (P : HashParams)
+    (w : World1) (ops : List Op1) (h : ∀ op ∈ ops, op.isAttrOp = false) :
+    run1D src false tbl P w ops = run1D src true tbl P w ops := by
+  simp only [run1D]
+  exact run1_tbl_irrelevant _ _ P ops w h
+
+/-- **hash_cache_inv_optimized.**  `hash_cache_inv` in any interpreter mode: as long as no
+`setattr` went through on a field, every cached hash stays coherent and every answer is the answer
+on fresh objects — under `python -O` the hypothesis is no longer guaranteed by the classes
+(`optimized_rebind_stale_cex`), it is a duty of the caller. -/
+theorem hash_cache_inv_optimized (src : C01FrozenSource) (debug : Bool) (tbl : ClassTable)
+    {P : HashParams} (hP : P.Ok) (w : World1) (hc : w.base.coherent P) (hw : w.base.wf)
+    (ops : List Op1) (hno : ∀ o ∈ (run1D src debug tbl P w ops).2, o.rebound = false) :
+    (run1D src debug tbl P w ops).1.base.coherent P ∧
+      (run1D src debug tbl P w ops).2.map Out1.core
+        = (run1Ref (tbl.inMode src debug) w.erased ops).2 :=
+  hash_cache_inv (tbl.inMode src debug) hP w hc hw ops hno
 
 end PV.C01
